@@ -1520,6 +1520,96 @@ def fuse_record_lists(index):
     return done
 
 
+# ---- loops over a literal table of rows -------------------------------------------------------------------------------------------
+def unroll_literal_tables(index):
+    """`for a, b, c in ((A1, B1, C1), (A2, B2, C2), ...):` -- directly, or through a local bound once to that literal and used for
+    nothing else -- is the body once per row with the targets replaced by the row's entries, in order.  Entries may be thunks
+    (`lambda: E`): a call `a()` of such an entry is E.  Only for bodies without break / continue, tables of at most 12 rows whose
+    entries are names, constants, attribute chains, f-strings or parameterless lambdas."""
+    import copy
+    done = {}
+
+    def entry_ok(e):
+        if isinstance(e, ast.Lambda):
+            a = e.args
+            return not (a.args or a.kwonlyargs or a.vararg or a.kwarg or a.posonlyargs)
+        return isinstance(e, (ast.Name, ast.Constant, ast.Attribute, ast.JoinedStr))
+
+    def table_of(e):
+        if isinstance(e, (ast.Tuple, ast.List)) and 1 <= len(e.elts) <= 12 and all(isinstance(r, (ast.Tuple, ast.List)) for r in e.elts) and \
+                len({len(r.elts) for r in e.elts}) == 1 and all(entry_ok(x) for r in e.elts for x in r.elts):
+            return [list(r.elts) for r in e.elts]
+        return None
+
+    for f in index.all_functions():
+        binds = {}
+        for n in _own_walk(f.node):
+            if isinstance(n, ast.Assign) and len(n.targets) == 1 and isinstance(n.targets[0], ast.Name):
+                binds.setdefault(n.targets[0].id, []).append(n)
+        changed = False
+        for blk_owner in list(ast.walk(f.node)):
+            for fld in ("body", "orelse", "finalbody"):
+                blk = getattr(blk_owner, fld, None)
+                if not isinstance(blk, list):
+                    continue
+                i = 0
+                while i < len(blk):
+                    st = blk[i]
+                    i += 1
+                    if not (isinstance(st, ast.For) and not st.orelse and isinstance(st.target, ast.Tuple) and
+                            all(isinstance(t, ast.Name) for t in st.target.elts)):
+                        continue
+                    rows, via = table_of(st.iter), None
+                    if rows is None and isinstance(st.iter, ast.Name) and len(binds.get(st.iter.id, ())) == 1:
+                        rows, via = table_of(binds[st.iter.id][0].value), st.iter.id
+                        uses = [n for n in ast.walk(f.node) if isinstance(n, ast.Name) and n.id == via and isinstance(n.ctx, ast.Load)]
+                        if len(uses) != 1:
+                            rows = None
+                    if rows is None or len(rows[0]) != len(st.target.elts):
+                        continue
+                    if any(isinstance(x, (ast.Break, ast.Continue)) for b in st.body for x in ast.walk(b)):
+                        continue
+                    tnames = [t.id for t in st.target.elts]
+                    if any(isinstance(x, ast.Name) and x.id in tnames and isinstance(x.ctx, ast.Store) for b in st.body for x in ast.walk(b)):
+                        continue
+                    out = []
+                    for row in rows:
+                        mp = dict(zip(tnames, row))
+
+                        class S(ast.NodeTransformer):
+                            def visit_Call(self, node):
+                                if isinstance(node.func, ast.Name) and node.func.id in mp and isinstance(mp[node.func.id], ast.Lambda) and \
+                                        not node.args and not node.keywords:
+                                    return copy.deepcopy(mp[node.func.id].body)
+                                self.generic_visit(node)
+                                return node
+
+                            def visit_Name(self, node):
+                                if isinstance(node.ctx, ast.Load) and node.id in mp:
+                                    return copy.deepcopy(mp[node.id])
+                                return node
+                        for b in st.body:
+                            out.append(S().visit(copy.deepcopy(b)))
+                    blk[i - 1:i] = out
+                    i = i - 1 + len(out)
+                    changed = True
+                    if via is not None:
+                        asg = binds[via][0]
+                        for o2 in ast.walk(f.node):
+                            for fld2 in ("body", "orelse", "finalbody"):
+                                b2 = getattr(o2, fld2, None)
+                                if isinstance(b2, list) and asg in b2:
+                                    if b2 is blk and b2.index(asg) < i:
+                                        i -= 1
+                                    b2.remove(asg)
+                                    if not b2:
+                                        b2.append(ast.Pass())
+                    done[f.site] = done.get(f.site, 0) + 1
+        if changed:
+            ast.fix_missing_locations(f.node)
+    return done
+
+
 # ---- local memo dictionaries ------------------------------------------------------------------------------------------------------
 def inline_local_memos(index):
     """`D = {}` ... `if K not in D: D[K] = E` ... `D[K]`: a local dictionary that memoises the pure expression E per key K.  When E
@@ -1943,6 +2033,27 @@ def _pure_expr(e):
     return True
 
 
+def _collapse_return_chain(body):
+    """`if C1: return E1` / `if C2: return E2` / ... / `return F` (guard clauses that only return) is the single
+    `return E1 if C1 else (E2 if C2 else F)`.  Anything else is handed back unchanged."""
+    if len(body) < 2 or not isinstance(body[-1], ast.Return) or body[-1].value is None:
+        return body
+    expr = body[-1].value
+    for st in reversed(body[:-1]):
+        if not (isinstance(st, ast.If) and len(st.body) == 1 and isinstance(st.body[0], ast.Return) and st.body[0].value is not None):
+            return body
+        if st.orelse:
+            if not (len(st.orelse) == 1 and isinstance(st.orelse[0], ast.Return) and st.orelse[0].value is not None):
+                return body
+            expr = ast.IfExp(test=st.test, body=st.body[0].value, orelse=st.orelse[0].value)
+        else:
+            expr = ast.IfExp(test=st.test, body=st.body[0].value, orelse=expr)
+    r = ast.Return(value=expr)
+    ast.copy_location(r, body[0])
+    ast.fix_missing_locations(r)
+    return [r]
+
+
 def open_pure_functions(index):
     """A *new* module-level function (or static method) whose body is one `return <expr>` with <expr> built from its parameters
     by arithmetic, comparisons, attribute reads and a few pure built-ins (`slice`, `max`, `isinstance`, ...) is a named
@@ -1969,6 +2080,7 @@ def open_pure_functions(index):
         if a.vararg or a.kwarg or a.posonlyargs:
             continue
         body = [s for s in f.node.body if not (isinstance(s, ast.Expr) and isinstance(s.value, ast.Constant))]
+        body = _collapse_return_chain(body)
         if len(body) != 1 or not isinstance(body[0], ast.Return) or body[0].value is None or not _pure_expr(body[0].value):
             continue
         params = [x.arg for x in a.args + a.kwonlyargs]
@@ -2021,6 +2133,7 @@ def open_pure_functions(index):
             if set(bind) != set(pos + kwonly) or not all(_pure_expr(v) for v in bind.values()):
                 return n
             body = [s for s in target.node.body if not (isinstance(s, ast.Expr) and isinstance(s.value, ast.Constant))]
+            body = _collapse_return_chain(body)
             new = _Subst(bind, {}).visit(copy.deepcopy(body[0].value))
             for x in ast.walk(new):
                 ast.copy_location(x, n)
@@ -2197,6 +2310,171 @@ def tuples_for_named_records(index):
                     return n
             Fld().visit(f.node)
             ast.fix_missing_locations(f.node)
+    return done
+
+
+# ---- a record of constructor parameters ----------------------------------------------------------------------------------------------
+def _record_classes(index):
+    """name -> field list, for private NamedTuple classes and module-level `X = namedtuple("X", fields)`."""
+    records = {}
+    for c in index.all_classes():
+        if any(b.split(".")[-1] == "NamedTuple" for b in c.bases):
+            fields = [s_.target.id for s_ in c.node.body if isinstance(s_, ast.AnnAssign) and isinstance(s_.target, ast.Name)]
+            if fields and not c.methods:
+                records[c.name] = fields
+    bodies = [m.tree.body for m in index.modules.values()] + [c.node.body for c in index.all_classes()]
+    for body_ in bodies:
+        for st in body_:
+            if isinstance(st, ast.Assign) and len(st.targets) == 1 and isinstance(st.targets[0], ast.Name) and isinstance(st.value, ast.Call) and \
+                    ast.unparse(st.value.func) in ("namedtuple", "collections.namedtuple") and len(st.value.args) == 2 and not st.value.keywords:
+                fl = st.value.args[1]
+                fields = None
+                if isinstance(fl, (ast.Tuple, ast.List)) and all(isinstance(x, ast.Constant) and isinstance(x.value, str) for x in fl.elts):
+                    fields = [x.value for x in fl.elts]
+                elif isinstance(fl, ast.Constant) and isinstance(fl.value, str):
+                    fields = fl.value.replace(",", " ").split()
+                if fields:
+                    records[st.targets[0].id] = fields
+    return records
+
+
+def open_parameter_records(index):
+    """`self._params = _Params(addr_width=addr_width, data_width=data_width)` in a constructor (the only store of that attribute in the
+    class): the record is its fields.  In the methods of the class `self._params == other._params` is the conjunction of the
+    field-wise comparisons, `self._params._asdict()` the dict display of the fields, and `f(**self._params._asdict())` the call with
+    one keyword per field.  (Field reads `self._params.addr_width` are resolved by the rules through the constructor.)"""
+    import copy
+    records = _record_classes(index)
+    if not records:
+        return {}
+    done = {}
+    for c in index.all_classes():
+        init = c.method("__init__")
+        if init is None:
+            continue
+        attrs = {}
+        for m_ in [f for fs in c.methods.values() for f in fs]:
+            for n in ast.walk(m_.node):
+                if isinstance(n, ast.Assign):
+                    for t in n.targets:
+                        for t2 in (t.elts if isinstance(t, ast.Tuple) else [t]):
+                            if _self_attr(t2):
+                                attrs.setdefault(_self_attr(t2), []).append((m_, n))
+        recs = {}
+        rec_stores = {}
+        for a, sts in attrs.items():
+            if len(sts) == 1 and sts[0][0] is init and isinstance(sts[0][1].value, ast.Call) and len(sts[0][1].targets) == 1 and \
+                    _self_attr(sts[0][1].targets[0]) == a:
+                fn_ = sts[0][1].value.func
+                rn = fn_.id if isinstance(fn_, ast.Name) else (fn_.attr if isinstance(fn_, ast.Attribute) and isinstance(fn_.value, ast.Name) and
+                                                                 fn_.value.id in ("self", "cls", c.name) else None)
+                if rn in records:
+                    recs[a] = records[rn]
+                    rec_stores[a] = sts[0][1]
+        if not recs:
+            continue
+
+        def rec_of(e):
+            """(object name, attribute) when e is <name>.<record attribute>"""
+            if isinstance(e, ast.Attribute) and isinstance(e.value, ast.Name) and e.attr in recs:
+                return e.value.id, e.attr
+            return None
+
+        class T(ast.NodeTransformer):
+            def __init__(self):
+                self.n = 0
+
+            def visit_Compare(self, node):
+                self.generic_visit(node)
+                if len(node.ops) == 1 and isinstance(node.ops[0], (ast.Eq, ast.NotEq)):
+                    a, b = rec_of(node.left), rec_of(node.comparators[0])
+                    if a and b and a[1] == b[1]:
+                        parts = [ast.Compare(left=ast.Attribute(value=copy.deepcopy(node.left), attr=f_, ctx=ast.Load()), ops=[ast.Eq()],
+                                             comparators=[ast.Attribute(value=copy.deepcopy(node.comparators[0]), attr=f_, ctx=ast.Load())])
+                                 for f_ in recs[a[1]]]
+                        conj = parts[0] if len(parts) == 1 else ast.BoolOp(op=ast.And(), values=parts)
+                        self.n += 1
+                        if isinstance(node.ops[0], ast.NotEq):
+                            conj = ast.UnaryOp(op=ast.Not(), operand=conj)
+                        return ast.copy_location(conj, node)
+                return node
+
+            def visit_Call(self, node):
+                self.generic_visit(node)
+                # f(**self._params._asdict())
+                kws = []
+                for k in node.keywords:
+                    v = k.value
+                    if k.arg is None and isinstance(v, ast.Call) and isinstance(v.func, ast.Attribute) and v.func.attr == "_asdict" and not v.args and \
+                            rec_of(v.func.value):
+                        for f_ in recs[rec_of(v.func.value)[1]]:
+                            kws.append(ast.keyword(arg=f_, value=ast.Attribute(value=copy.deepcopy(v.func.value), attr=f_, ctx=ast.Load())))
+                        self.n += 1
+                    else:
+                        kws.append(k)
+                node.keywords = kws
+                # self._params._asdict() on its own
+                if isinstance(node.func, ast.Attribute) and node.func.attr == "_asdict" and not node.args and rec_of(node.func.value):
+                    r = rec_of(node.func.value)
+                    self.n += 1
+                    return ast.copy_location(ast.Dict(keys=[ast.Constant(value=f_) for f_ in recs[r[1]]],
+                                                      values=[ast.Attribute(value=copy.deepcopy(node.func.value), attr=f_, ctx=ast.Load())
+                                                              for f_ in recs[r[1]]]), node)
+                return node
+        for m_ in [f for fs in c.methods.values() for f in fs]:
+            t = T()
+            t.visit(m_.node)
+            if t.n:
+                ast.fix_missing_locations(m_.node)
+                done[m_.site] = t.n
+        # a record that is only ever read field by field is its fields: `self.R = Rec(a=A, b=B)` becomes `self.R__a = A; self.R__b = B`
+        # (in the order the arguments are written, which is the order they are evaluated in) and `x.R.a` becomes `x.R__a`
+        methods = [f for fs in c.methods.values() for f in fs]
+        for a, fields in recs.items():
+            st = rec_stores[a]
+            call = st.value
+            if any(isinstance(x, ast.Starred) for x in call.args) or any(k.arg is None or k.arg not in fields for k in call.keywords) or \
+                    len(call.args) > len(fields):
+                continue
+            given = list(zip(fields, call.args)) + [(k.arg, k.value) for k in call.keywords]
+            if sorted(n_ for n_, _ in given) != sorted(fields):
+                continue
+            uses_ok = True
+            parents = {}
+            for m_ in methods:
+                for n in ast.walk(m_.node):
+                    for ch in ast.iter_child_nodes(n):
+                        parents[ch] = n
+            for m_ in methods:
+                for n in ast.walk(m_.node):
+                    if isinstance(n, ast.Attribute) and n.attr == a and isinstance(n.value, ast.Name):
+                        par = parents.get(n)
+                        if n is st.targets[0]:
+                            continue
+                        if not (isinstance(par, ast.Attribute) and par.value is n and par.attr in fields and isinstance(par.ctx, ast.Load)):
+                            uses_ok = False
+            if not uses_ok:
+                continue
+
+            class Sc(ast.NodeTransformer):
+                def visit_Attribute(self, node):
+                    self.generic_visit(node)
+                    if isinstance(node.value, ast.Attribute) and node.value.attr == a and isinstance(node.value.value, ast.Name) and node.attr in fields:
+                        return ast.copy_location(ast.Attribute(value=node.value.value, attr=f"{a}__{node.attr}", ctx=node.ctx), node)
+                    return node
+            for m_ in methods:
+                Sc().visit(m_.node)
+            new_sts = [ast.copy_location(ast.Assign(targets=[ast.Attribute(value=ast.Name(id="self", ctx=ast.Load()), attr=f"{a}__{fn}", ctx=ast.Store())],
+                                                    value=fv), fv) for fn, fv in given]
+            for o_ in ast.walk(init.node):
+                for fld in ("body", "orelse", "finalbody"):
+                    b_ = getattr(o_, fld, None)
+                    if isinstance(b_, list) and st in b_:
+                        k_ = b_.index(st)
+                        b_[k_:k_ + 1] = new_sts
+            for m_ in methods:
+                ast.fix_missing_locations(m_.node)
+            done[init.site] = done.get(init.site, 0) + 1
     return done
 
 
